@@ -1,6 +1,6 @@
 """C15 — node and expression finders return exactly the matching nodes.
 
-Three case kinds:
+Four case kinds (edge: fixed corner shapes and bare expression roots, built like tree):
   expr : one programmatically built expression tree; ExpressionRetriever with the query of every finder class,
          with and without a recurse_query.
   tree : a programmatically built IR tree (all traversable slot shapes: tuples of tuples, else_body, kwarguments,
@@ -14,7 +14,22 @@ visitors or mappers.
 """
 import itertools
 from ..framework import Property
-from ..coqlit import coq, C, Raw, Some
+from ..coqlit import C, Raw, Some, coq_string
+
+def coq(v):
+    """compact Coq literals (case files open Z_scope: integers are written bare)"""
+    if isinstance(v, Raw): return v.text
+    if isinstance(v, bool): return 'true' if v else 'false'
+    if isinstance(v, int): return str(v) if v >= 0 else '(%d)' % v
+    if isinstance(v, str): return coq_string(v)
+    if v is None: return 'None'
+    if isinstance(v, Some): return '(Some %s)' % coq(v.v)
+    if isinstance(v, list): return '[%s]' % '; '.join(coq(x) for x in v)
+    if isinstance(v, tuple): return '(%s)' % ', '.join(coq(x) for x in v)
+    if isinstance(v, C):
+        if not v.args: return v.head
+        return '(%s %s)' % (v.head, ' '.join(coq(a) for a in v.args))
+    raise TypeError('no Coq literal for %r' % (v,))
 
 # ---------------------------------------------------------------------------------------------------------------
 # tables
@@ -127,6 +142,7 @@ class Bridge:
             else:
                 name = ''
             skey = str(e) if self.want_skey else ''
+            if skey == name: skey = ''
         return C('EN', self.L.of(e), Raw(c), name, skey, [self.expr(k) for k in model_kids(e, sym, self.pmbl)])
 
     def item(self, o, eqk):
@@ -201,6 +217,8 @@ class Walk:
         out = list(self._scan(e.__getinitargs__()))
         if isinstance(e, self.sym.InlineCall):  # __getinitargs__ only lists the keyword names
             out += list(self._scan(list(e.kw_parameters.values())))
+        if isinstance(e, self.sym.Cast):        # __getinitargs__ lists the name, the function object is pymbolic's Variable
+            out = [e.function] + out
         return out
 
     def occurrences(self, e, blocked=()):
@@ -267,7 +285,8 @@ def gen_expr(rng, depth, pool=None, allow=None):
     if k == 'Call':
         kw = [[rng.choice(['k', 'dim', 'Kind']), sub()] for _ in range(rng.choice([0, 0, 1, 2]))]
         kw = list({a.lower(): [a, b] for a, b in kw}.values())
-        fn = {'c': rng.choice(['P', 'P', 'D', 'DT']), 'n': _case_variant(rng, rng.choice(['f', 'g', 'min']))}
+        fn = rng.choice([{'c': 'P', 'n': _case_variant(rng, rng.choice(['f', 'g', 'min']))}] * 3 +
+                        [{'c': 'D', 'n': _case_variant(rng, 'q')}, {'c': 'DT', 'n': _case_variant(rng, 'tcons')}])
         return {'c': 'Call', 'f': fn, 'a': [sub() for _ in range(rng.randint(0, 2))], 'kw': kw}
     if k in ('Sum', 'Prod', 'And', 'Or', 'Cat', 'PAdd'):
         return {'c': k, 'a': [sub() for _ in range(rng.randint(2, 3))]}
@@ -279,13 +298,13 @@ def gen_expr(rng, depth, pool=None, allow=None):
         parts = [sub() if rng.random() < 0.7 else None for _ in range(3)]
         return {'c': rng.choice(['Rng', 'RngI', 'RngL']), 'a': parts}
     if k == 'LL':
-        return {'c': 'LL', 'a': [sub() if rng.random() < 0.85 else 'rawtext' for _ in range(rng.randint(1, 3))]}
+        return {'c': 'LL', 'a': [sub() for _ in range(rng.randint(1, 3))]}
     if k == 'IDo':
         return {'c': 'IDo', 'a': [sub(), {'c': 'S', 'n': 'i'}, {'c': 'RngL', 'a': [{'c': 'I', 'v': 1, 'k': None}, sub(), None]}]}
     if k == 'Cast':
         return {'c': 'Cast', 'n': rng.choice(['real', 'int']), 'a': [sub()], 'k': (sub() if rng.random() < 0.5 else None)}
     if k == 'SSub':
-        return {'c': 'SSub', 'a': [{'c': 'S', 'n': nm()}, {'c': 'RngI', 'a': [sub(), sub(), None]}]}
+        return {'c': 'SSub', 'a': [{'c': 'S', 'n': _case_variant(rng, rng.choice(['s1', 's2']))}, {'c': 'RngI', 'a': [sub(), sub(), None]}]}
     raise KeyError(k)
 
 def build_expr(s, memo=None):
@@ -332,7 +351,7 @@ def build_expr(s, memo=None):
         cls = {'Rng': sym.Range, 'RngI': sym.RangeIndex, 'RngL': sym.LoopRange}[c]
         o = cls(tuple(B(x) for x in s['a']))
     elif c == 'LL': o = sym.LiteralList(tuple(B(x) for x in s['a']))
-    elif c == 'IDo': o = sym.InlineDo(B(s['a'][0]), B(s['a'][1]), B(s['a'][2]))
+    elif c == 'IDo': o = sym.InlineDo((B(s['a'][0]),), B(s['a'][1]), B(s['a'][2]))
     elif c == 'Cast': o = sym.Cast(s['n'], B(s['a'][0]), kind=B(s.get('k')))
     elif c == 'SSub': o = sym.StringSubscript(B(s['a'][0]), B(s['a'][1]))
     else: raise KeyError(c)
@@ -509,7 +528,7 @@ class SrcGen:
         if k < 0.35: return self.cv(r.choice(self.ints))
         if k < 0.6: return '%s(%s)' % (self.cv(r.choice(self.arr1)), self.idx(d))
         if k < 0.7: return '%s(%s, %s)' % (self.cv(r.choice(self.arr2)), self.idx(d), self.idx(d))
-        if k < 0.8: return 't%%%s' % r.choice(['p', 'P', 'q(%s)' % self.idx(0), 'u%%s', 'u%%v(%s)' % self.idx(0)])
+        if k < 0.8: return 't%%%s' % r.choice(['p', 'P', 'q(%s)' % self.idx(0), 'u%s', 'u%%v(%s)' % self.idx(0)])
         if k < 0.87: return self.cv(r.choice(self.arr1))
         return self.cv(r.choice(['ext1', 'ext2']))                                 # imported, deferred type
     def lit(self):
@@ -527,7 +546,7 @@ class SrcGen:
         if k < 0.74: return 'real(%s, kind=8)' % self.cv(r.choice(self.ints))
         if k < 0.8: return 'size(%s, dim=1)' % r.choice(self.arr1)
         if k < 0.86: return 'fun(%s, opt=%s)' % (self.expr(d - 1), self.expr(d - 1))
-        if k < 0.9: return '-%s' % self.ref(d - 1)
+        if k < 0.9: return '(-%s)' % self.ref(d - 1)
         if k < 0.95: return 'abs(%s)' % self.expr(d - 1)
         return self.ref(d)
     def cond(self, d=1):
@@ -567,7 +586,7 @@ class SrcGen:
             return [p + 'call %s(%s)' % (r.choice(['sub1', 'sub2']), ', '.join(args + kws))]
         if t == 'alloc':
             k = r.random()
-            if k < 0.4: return [p + 'allocate(v(%s), stat=ist)' % self.expr(1)]
+            if k < 0.4: return [p + 'allocate(v(%s), stat=ist)' % r.choice(['n', 'n + 1', 'size(x)', 'max(n, m)', '2*n'])]
             if k < 0.7: return [p + 'allocate(v, source=%s)' % r.choice(self.arr1)]
             return [p + 'deallocate(v, stat=ist)']
         if t == 'inlineif': return [p + 'if (%s) %s = %s' % (self.cond(1), self.lhs(), self.expr(1))]
@@ -599,8 +618,8 @@ class SrcGen:
             if r.random() < 0.5: out += [p + 'elsewhere', p + '  x = %s' % self.lit()]
             return out + [p + 'end where']
         if t == 'assoc':
-            nm = 'as%d' % self.mark()
-            return [p + 'associate(%s => %s)' % (nm, r.choice(['x(%s)' % self.idx(1), 't%q', 'a + %s' % self.lit()]))] + \
+            nm = 'as%d' % self.mark()   # no ranges as selector: Loki's associate shape derivation crashes on x(i:n)
+            return [p + 'associate(%s => %s)' % (nm, r.choice(['x(%s)' % r.choice(['i', 'j + 1', '2', 'idx(i)']), 't%q', 'a + %s' % self.lit()]))] + \
                    [p + '  %s = %s' % (r.choice(self.reals), nm)] + self.stmts(depth - 1, 0, 2, ind + 1) + [p + 'end associate']
         raise KeyError(t)
     def routine(self, with_member, with_typedef):
@@ -681,7 +700,8 @@ class Runner:
 
         # ---- FindNodes, type mode
         present = {type(n).__name__ for n in allnodes}
-        for ts in TYPE_SETS:
+        start = (self.picks[0] if self.picks else 0) % len(TYPE_SETS)
+        for ts in [TYPE_SETS[(start + j) % len(TYPE_SETS)] for j in range(6)]:
             match = tuple(getattr(ir, t) for t in ts)
             kinds = [KIND[c] for c in NODE_CLASSES if _issub(ir, c, ts)]
             for greedy in (False, True):
@@ -745,6 +765,7 @@ class Runner:
         # ---- expression finders
         has_reached_decl = any(isinstance(n, ir.VariableDeclaration) for _, n in pre)
         top_is_tuple_with_exprs = isinstance(self.root, (tuple, list)) and any(isinstance(c, self.pmbl.Expression) for c in W.flat(self.root))
+        root_is_expr = isinstance(self.root, self.pmbl.Expression)
         for fid, fname in FINDERS:
             cls = getattr(lir, fname)
             pred = finder_pred(fid, self.sym, self.pmbl)
@@ -776,7 +797,8 @@ class Runner:
                             if sorted(self.lab(x) for x in res) != sorted(self.lab(x) for x in exp_all) or any(x is None for x in res):
                                 note('%s(unique=False) returned %d items, the tree holds %d matching occurrences (missing labels %s, extra %s)'
                                      % (fname, len(res), len(exp_all), self.msdiff(exp_all, res)[:10], self.msdiff(res, exp_all)[:10]))
-                        else:
+                        elif not root_is_expr or self.strict:
+                            # (on a bare expression root visit_Expression returns the plain list: known finding F6)
                             msg = self.check_unique(list(res), exp_all)
                             if msg: note('%s(unique=True): %s' % (fname, msg))
                     else:
@@ -790,35 +812,39 @@ class Runner:
                                 o, es = pair
                                 out.append((self.lab(o) if isinstance(o, ir.Node) else -2, [self.atom(x) for x in es]))
                         runs.append(['efir', fid, unique, out])
+                        # a reached VariableDeclaration in which something is found: flattening of the (children, exprs)
+                        # pairs (known finding F1)
                         in_class = not (has_reached_decl and any(occ for n, occ in exp_groups if isinstance(n, ir.VariableDeclaration))) \
-                            and not top_is_tuple_with_exprs
-                        # with VariableDeclaration the flattening of (children, exprs) pairs is the known finding F1
-                        in_class = in_class and not (has_reached_decl and fid in ('FVars', 'FTyped', 'FExprs'))
+                            and not top_is_tuple_with_exprs and not root_is_expr
                         if not (in_class or self.strict):
                             continue
                         if err:
                             note('%s(unique=%s, with_ir_node=True) raised %s' % (fname, unique, err)); continue
                         expg = [(n, occ) for n, occ in exp_groups if occ]
-                        got = {}
+                        got, want = {}, {}
                         bad = None
                         for pair in res:
                             if not (isinstance(pair, tuple) and len(pair) == 2 and isinstance(pair[0], ir.Node)):
                                 bad = 'entry that is not a (node, expressions) pair'; break
-                            if id(pair[0]) in got: bad = 'node %d listed twice' % self.lab(pair[0]); break
-                            got[id(pair[0])] = list(pair[1])
-                        if bad is None and set(got) != {id(n) for n, _ in expg}:
-                            bad = 'nodes with results %s, expected %s' % (sorted(self.L.ids[k] for k in got), sorted(self.lab(n) for n, _ in expg))
+                            got.setdefault(id(pair[0]), []).append(list(pair[1]))
+                        for n, occ in expg:
+                            want.setdefault(id(n), []).append(occ)
+                        if bad is None and {k: len(v) for k, v in got.items()} != {k: len(v) for k, v in want.items()}:
+                            bad = 'nodes with results %s, expected %s (a node object occurring k times in the tree is listed k times)' % (
+                                sorted((self.L.ids.get(k, 0), len(v)) for k, v in got.items()),
+                                sorted((self.L.ids.get(k, 0), len(v)) for k, v in want.items()))
                         if bad is None:
                             for n, occ in expg:
-                                g = got[id(n)]
-                                if any(x is None or not isinstance(x, self.pmbl.Expression) for x in g):
-                                    bad = 'group of node %d contains a non-expression' % self.lab(n); break
-                                if not unique:
-                                    if sorted(self.lab(x) for x in g) != sorted(self.lab(x) for x in occ):
-                                        bad = 'group of node %d is %s, expected occurrences %s' % (self.lab(n), sorted(self.lab(x) for x in g), sorted(self.lab(x) for x in occ)); break
-                                else:
-                                    msg = self.check_unique(g, occ)
-                                    if msg: bad = 'group of node %d: %s' % (self.lab(n), msg); break
+                                for g in got[id(n)]:
+                                    if any(x is None or not isinstance(x, self.pmbl.Expression) for x in g):
+                                        bad = 'group of node %d contains a non-expression' % self.lab(n); break
+                                    if not unique:
+                                        if sorted(self.lab(x) for x in g) != sorted(self.lab(x) for x in occ):
+                                            bad = 'group of node %d is %s, expected occurrences %s' % (self.lab(n), sorted(self.lab(x) for x in g), sorted(self.lab(x) for x in occ)); break
+                                    else:
+                                        msg = self.check_unique(g, occ)
+                                        if msg: bad = 'group of node %d: %s' % (self.lab(n), msg); break
+                                if bad: break
                         if bad:
                             note('%s(unique=%s, with_ir_node=True): %s' % (fname, unique, bad))
         return {'tree': tree, 'runs': runs, 'fails': fails, 'n_nodes': len(allnodes), 'n_labels': len(self.L.ids),
@@ -851,22 +877,21 @@ class Runner:
                 if y is x or (hash(y) == hash(x) and y == x):
                     return 'elements %d and %d of the result are equal' % (self.lab(y), self.lab(x))
         for e in occ:
-            if not any(x is e or (hash(x) == hash(e) and x == e) for x in res):
-                return 'occurrence %d (%s) has no equal representative in the result' % (self.lab(e), str(e)[:40])
+            if not any(x is e or (hash(x) == hash(e) and (x == e or e == x)) or self.dkey(x) == self.dkey(e) for x in res):
+                return 'occurrence %d (%s) has no representative (same documented key or ==) in the result' % (self.lab(e), str(e)[:40])
         return None
+
+    def dkey(self, v):
+        """the documented identification of find_uniques: name, parent name, dimensions / the string"""
+        if isinstance(v, (self.sym.Scalar, self.sym.Array)):
+            return (v.name, v.parent.name if v.parent is not None else None, v.dimensions if isinstance(v, self.sym.Array) else None)
+        return str(v)
 
     # -- sequences (SequenceFinder / PatternFinder): every tuple that the visitors see as a sequence
     def sequences(self):
         """all tuples: the root tuple, every node's children tuple, every tuple nested in children"""
         ir = self.ir
         out = []
-        def rec(o):
-            if isinstance(o, ir.Node):
-                out.append(tuple(o.children));
-                for c in o.children: rec(c)
-            elif isinstance(o, (tuple, list)):
-                out.append(tuple(o))
-                for c in o: rec(c)
         # the children tuple of a node is visited as a tuple; nested tuples are visited through it
         def rec2(o):
             if isinstance(o, ir.Node):
@@ -924,7 +949,7 @@ class C15(Property):
 
     # ---- generation -------------------------------------------------------------------------------------
     def generate(self, rng, tier):
-        n_expr, n_tree, n_src = (260, 150, 90) if tier == 'quick' else (2500, 1500, 900)
+        n_expr, n_tree, n_src = (200, 90, 40) if tier == 'quick' else (1000, 300, 150)
         for i in range(n_expr):
             depth = rng.choice([1, 2, 2, 3, 3, 4])
             yield {'kind': 'expr', 'spec': gen_expr(rng, depth), 'blocks': rng.sample(BLOCKS[1:], 2)}
@@ -939,6 +964,23 @@ class C15(Property):
                     body.insert(rng.randrange(len(body) + 1), body[k])
             shape = 'section' if top < 0.6 else ('tuple' if top < 0.85 else 'nested')
             yield {'kind': 'tree', 'spec': body, 'shape': shape, 'picks': [rng.randrange(1000) for _ in range(3)]}
+        # small edge stream: empty containers, bare roots, shared expression objects, deep chains, expression roots
+        cm = lambda k: {'t': 'Comment', 'text': '! e%d' % k}
+        shared = {'c': 'S', 'n': 'a', 'share': 'se'}
+        chain = cm(0)
+        for d in range(7):
+            chain = ({'t': 'Loop', 'var': {'c': 'S', 'n': 'i'}, 'bounds': {'c': 'RngL', 'a': [{'c': 'I', 'v': 1, 'k': None}, {'c': 'S', 'n': 'n'}, None]}, 'body': [chain]}
+                     if d % 2 else {'t': 'Cond', 'cond': {'c': 'S', 'n': 'flag'}, 'body': [], 'else': [chain, cm(d + 10)]})
+        edges = [([], 'section'), ([], 'tuple'), ([cm(1)], 'bare'), ([cm(1)], 'nested'),
+                 ([{'t': 'TypeDef', 'name': 'tt', 'body': [cm(2), {'t': 'Assignment', 'lhs': {'c': 'S', 'n': 'a'}, 'rhs': {'c': 'S', 'n': 'b'}}]}], 'bare'),
+                 ([{'t': 'Decl', 'syms': [{'n': 'da', 'd': [{'c': 'I', 'v': 3, 'k': None}], 'init': {'c': 'F', 'v': '1.0', 'k': None}}], 'dims': None, 'm': 1}], 'bare'),
+                 ([{'t': 'Assignment', 'lhs': shared, 'rhs': {'c': 'Sum', 'a': [shared, {'c': 'A', 'n': 'x', 'd': [shared]}]}}, cm(3)], 'section'),
+                 ([chain], 'section'), ([cm(4), cm(5), cm(6)], 'tuple'),
+                 ([{'t': 'Interface', 'body': []}, {'t': 'Section', 'body': []}, {'t': 'Multi', 'expr': {'c': 'S', 'n': 'n'}, 'values': [], 'bodies': [], 'else': []}], 'section')]
+        for spec, shape in edges:
+            yield {'kind': 'edge', 'spec': spec, 'shape': shape, 'picks': [rng.randrange(1000) for _ in range(3)]}
+        for i in range(6 if tier == 'quick' else 40):
+            yield {'kind': 'edge', 'spec': gen_expr(rng, rng.choice([1, 2, 3])), 'shape': 'exprroot', 'picks': [0, 1, 2]}
         for i in range(n_src):
             g = SrcGen(rng)
             src = g.routine(with_member=rng.random() < 0.3, with_typedef=rng.random() < 0.6)
@@ -948,7 +990,9 @@ class C15(Property):
     # ---- implementation side -----------------------------------------------------------------------------
     def build_root(self, case):
         ir, sym, pmbl = _loki()
-        if case['kind'] == 'tree':
+        if case['kind'] == 'edge' and case.get('shape') == 'exprroot':
+            return build_expr(case['spec'], {})
+        if case['kind'] in ('tree', 'edge'):
             memo = {}
             nodes = tuple(build_node(s, memo) for s in case['spec'])
             shape = case.get('shape', 'section')
@@ -1035,6 +1079,7 @@ class C15(Property):
         if '__exception__' in out: return None
         if case['kind'] == 'expr':
             return ('expr', repr(case['spec'])) if out['n_nodes'] >= 4 else None
+        if case['kind'] == 'edge': return ('edge', repr(case['spec']), case['shape'])
         return (case['kind'], repr(case.get('spec') or case.get('src'))) if out['n_nodes'] >= 6 else None
 
     def search(self, rng, bad_cases):
@@ -1042,10 +1087,9 @@ class C15(Property):
         for c in bad_cases:
             if c['kind'] == 'tree':
                 for s in c['spec']:
-                    yield {'kind': 'tree', 'spec': [s], 'shape': 'section', 'picks': c.get('picks', [0, 1, 2]), 'mode': 'all'}
-            elif c['kind'] == 'expr':
-                yield dict(c, mode='all')
+                    yield {'kind': 'tree', 'spec': [s], 'shape': 'section', 'picks': c.get('picks', [0, 1, 2])}
             elif c['kind'] == 'src':
-                yield dict(c, mode='all')
+                yield dict(c, root='body')
+                yield dict(c, root='spec')
 
 PROP = C15
